@@ -6,8 +6,10 @@ import (
 	"fmt"
 	simplefixgo "github.com/b2broker/simplefix-go"
 	"github.com/b2broker/simplefix-go/fix"
+	"github.com/b2broker/simplefix-go/session"
 	"github.com/b2broker/simplefix-go/storages/memory"
 	"strconv"
+	"strings"
 	"sync"
 	"sync/atomic"
 	"time"
@@ -74,6 +76,15 @@ func run(c *vk.Ctx, can *rig.Canary, sc scen, idx int) {
 		fstore = &trFailStore{Storage: memory.NewStorage()}
 		cfg.Counter, cfg.Messages = fstore, fstore
 	}
+	var inIDs [2]int64
+	removeObservers := strings.HasSuffix(sc.answer, "+observers-removed")
+	if removeObservers {
+		sc.answer = strings.TrimSuffix(sc.answer, "+observers-removed")
+		cfg.OnSession = func(h *simplefixgo.DefaultHandler, s *session.Session) {
+			inIDs[0] = h.HandleIncoming(simplefixgo.AllMsgTypes, func([]byte) bool { return true })
+			inIDs[1] = h.HandleIncoming(simplefixgo.AllMsgTypes, func([]byte) bool { return true })
+		}
+	}
 	f, err := rig.StartFull(cfg)
 	if err != nil {
 		c.Inconclusive("rig: " + err.Error())
@@ -112,6 +123,12 @@ func run(c *vk.Ctx, can *rig.Canary, sc scen, idx int) {
 	frames := func() []rig.Frame {
 		fr, _ := l.Frames()
 		return rig.Since(fr, since)
+	}
+	if removeObservers {
+		// the application takes out the two incoming observers it registered before the logon, older first
+		_ = l.H.RemoveIncomingHandler(simplefixgo.AllMsgTypes, inIDs[0])
+		_ = l.H.RemoveIncomingHandler(simplefixgo.AllMsgTypes, inIDs[1])
+		c.Count("handler_removals", 2)
 	}
 	slackNow := func() time.Duration { return 100*time.Millisecond + 3*can.Max() }
 	feed := func() time.Time {
@@ -366,7 +383,7 @@ func run(c *vk.Ctx, can *rig.Canary, sc scen, idx int) {
 
 func main() {
 	c := vk.Init("C09")
-	c.Rule("full-stack sessions, both roles, N in {1,2} (quick) + {5,20,40} (thorough; N=40 exercises the N/20 branch), T = N + max(1,N/20); inbound patterns: total silence; total silence while the message store refuses the first TestRequest (the probe cannot leave; the disconnect after two periods is still due); a second message T/20 after the Logon and then silence (measured from that message); silence ending 0.3 s before the deadline; a message (Heartbeat / application / unknown type / TestRequest; also Heartbeats numbered 0 or -5 and an application message without MsgSeqNum) arriving 2%, 10%, 50%, 85% into the second period; steady traffic with period 0.95 N for 12 periods; plus sessions that log on a second time on the same connection after a Logout exchange (acceptor: first interval 1 then 2, 2 then 1, 1 then 1; initiator: same interval), observed from the second logon with the patterns total silence / answer at 50% / steady traffic. Oracle: silence => TestRequest within T + T/10 + slack of the last inbound message (and not before T), then EventDisconnect, OnStopped/OnDisconnect, net.Conn.Close (and Serve return) within T + T/10 + slack of the TestRequest (and not before T); an inbound message of any type in the second period finds the session connected, buys another period, and renewed silence is probed again with a second TestRequest before any disconnect; live peers see no TestRequest and no disconnect. slack = 100 ms + 3 x measured scheduler oversleep. distinct = (role, N, pattern, answer type); non-trivial = a timer expiry or a cancelled expiry was observed")
+	c.Rule("full-stack sessions, both roles, N in {1,2} (quick) + {5,20,40} (thorough; N=40 exercises the N/20 branch), T = N + max(1,N/20); inbound patterns: total silence; total silence while the message store refuses the first TestRequest (the probe cannot leave; the disconnect after two periods is still due); a second message T/20 after the Logon and then silence (measured from that message); silence ending 0.3 s before the deadline; a message (Heartbeat / application / unknown type / TestRequest; also Heartbeats numbered 0 or -5 and an application message without MsgSeqNum) arriving 2%, 10%, 50%, 85% into the second period; steady traffic with period 0.95 N for 12 periods (also after the application removed two incoming observers it had registered before the logon); plus sessions that log on a second time on the same connection after a Logout exchange (acceptor: first interval 1 then 2, 2 then 1, 1 then 1; initiator: same interval), observed from the second logon with the patterns total silence / answer at 50% / steady traffic. Oracle: silence => TestRequest within T + T/10 + slack of the last inbound message (and not before T), then EventDisconnect, OnStopped/OnDisconnect, net.Conn.Close (and Serve return) within T + T/10 + slack of the TestRequest (and not before T); an inbound message of any type in the second period finds the session connected, buys another period, and renewed silence is probed again with a second TestRequest before any disconnect; live peers see no TestRequest and no disconnect. slack = 100 ms + 3 x measured scheduler oversleep. distinct = (role, N, pattern, answer type); non-trivial = a timer expiry or a cancelled expiry was observed")
 	c.Assume("reference instant of an inbound message = the moment it was handed to the scripted connection (the library's Read returns it within microseconds)")
 	can := rig.StartCanary()
 	defer can.Stop()
@@ -408,6 +425,11 @@ func main() {
 				scs = append(scs, scen{role, 1, p, a, 0})
 			}
 		}
+	}
+	// the application removes incoming observers of its own after the logon: the peer's traffic still counts
+	for _, role := range []rig.Role{rig.Acceptor, rig.Initiator} {
+		scs = append(scs, scen{role, 1, "steady-traffic", "heartbeat+observers-removed", 0})
+		scs = append(scs, scen{role, 1, "answer-50%", "app+observers-removed", 0})
 	}
 	// a second logon on the same connection after a Logout exchange: the new interval applies, one probe period at a time
 	for _, role := range []rig.Role{rig.Acceptor, rig.Initiator} {
